@@ -9,7 +9,7 @@ package query
 //@   ensures err == nil ==> sqlSafe(ret0) // C20
 
 // every value of type ContextFn is a function that returns SQL-safe text (checked at every conversion)
-//@ typespec query.ContextFn MatcherSpec // C20
+//@ typespec query.ContextFn MatcherSpec // C20 C04
 
 // the connective of a set is program text ("and"/"or"), never the client's
 //@ typeinv query.set: sqlSafe(self.operator) // C20
